@@ -407,7 +407,7 @@ def concrete_line(item):
         payload = pay[: prm["off"]] + cex["w"] + pay[prm["off"] + prm["w"] :]
         return prm["head"] + payload + prm.get("tail", ""), prm["head"][41:45], payload
     if h == "full":
-        t1, t2 = cex.get("t1", "01"), cex.get("t2", "04")
+        t1, t2 = cex.get("t1", "01"), cex.get("t2", "04")  # (defaults = the concrete types used when symtypes is off)
         a, b = t1 + ":145038", t2 + ":056789"
         sh = prm["shape"]
         addrs = [a + " " + b + " --:------", a + " --:------ " + a, "--:------ --:------ " + a, a + " " + a + " --:------"][sh]
